@@ -131,7 +131,7 @@ def heavy(smi):
 def jobs(tier):
     T = tier == 'thorough'
     J = []
-    for s in (seeds.THOROUGH if T else seeds.QUICK):
+    for s in list(seeds.THOROUGH if T else seeds.QUICK) + seeds.C01_ONLY:
         J.append({'harness': 'respell', 'params': {'smi': s}, 'budget_s': 1800 if T else 600, 'validate_every': 25,
                   'weight': 10 * len(s)})
     J.append({'harness': 'respell', 'params': {'smi': 'CCO', 'falsify': True}, 'twin': True, 'budget_s': 120,
